@@ -803,6 +803,16 @@ def chk_json(K, clause):
                 return f"{what}: the reloaded container is not usable under zero/copy/+/*: {e!r}"
             if not approx_eq(d2.toJson(), (h + h).toJson()):
                 return f"{what}: reloaded + reloaded differs from original + original"
+            r_b = hg.Factory.fromJson(json.loads(json.dumps(j)))
+            for x, y, lbl in ((h, r, "original + reloaded"), (r, h, "reloaded + original"), (r, r_b, "two separate reloads")):
+                try:
+                    m = x + y
+                except Exception as e:
+                    return f"{what}: {lbl} raised {e!r}"
+                if not approx_eq(m.toJson()["data"], (h + h).toJson()["data"]):
+                    return f"{what}: {lbl} differs from original + original: {json.dumps(m.toJson()['data'], sort_keys=True)[:300]}"
+            if not (r == r_b and r_b == r):
+                return f"{what}: two separate reloads of one document compare unequal"
             if not approx_eq(m2.toJson(), (h * 2.0).toJson(), 1e-7):
                 return f"{what}: reloaded * 2 differs from original * 2"
             if z.toJson() != h.zero().toJson() or c.toJson() != j:
@@ -935,4 +945,221 @@ def chk_tojson_frame(K):
         h.toJsonString()
         if js(h) != j1 or (copy.deepcopy(h.__dict__.get("values", None)), h.entries) != before:
             return f"{what}: toJson changed the aggregator"
+    return None
+
+
+# --------------------------------------------------------------------------- C16: shared nodes
+
+
+def chk_sharing():
+    import numpy as np
+
+    def containers(child_a, child_b):
+        """containers holding the two given objects at two fillable positions"""
+        yield "Label", hg.Label(a=child_a, b=child_b)
+        yield "UntypedLabel", hg.UntypedLabel(a=child_a, b=child_b)
+        yield "Index", hg.Index(child_a, child_b)
+        yield "Branch", hg.Branch(child_a, child_b)
+        yield "Branch3", hg.Branch(hg.Count(), child_a, child_b)
+
+    def leaves():
+        return [lambda: hg.Count(), lambda: hg.Sum(qx), lambda: hg.Bin(2, 0, 1, qx), lambda: hg.SparselyBin(1.0, qx), lambda: hg.Select(qsel, hg.Count())]
+
+    data = [0.5, 1.5]
+    arr = np.array([0.5, 1.5, float("nan")])
+
+    def fills(h):
+        yield "fill", lambda: h.fill(datum(0.5))
+        yield "fill.numpy", lambda: h.fill.numpy({"x": arr, "y": arr, "c": np.array(["a", "b", "a"])}) if False else h.fill.numpy(recarr())
+
+    def recarr():
+        return {"x": arr, "y": arr}
+
+    # numpy fill needs quantities on arrays: use dict-of-arrays data
+    def qxa(d):
+        return d["x"]
+
+    for mk in leaves():
+        # (1) siblings
+        shared = mk()
+        for name, h in containers(shared, shared):
+            before = js(shared)
+            try:
+                h.fill(datum(0.5))
+            except ContainerException:
+                if js(shared) != before:
+                    return f"{name}: shared sibling detected only after state changed"
+            else:
+                return f"{name}: the same {type(shared).__name__} at two sibling positions was filled without exception (entries {shared.entries})"
+        # (2) cousins under different parents
+        shared = mk()
+        h = hg.Branch(hg.Label(a=shared, b=mk()), hg.Index(mk(), shared))
+        try:
+            h.fill(datum(0.5))
+        except ContainerException:
+            pass
+        else:
+            return f"cousins: shared {type(shared).__name__} under two parents was filled without exception"
+        # (3) a pre-filled subtree embedded next to one of its own inner nodes; and retry after rejection
+        shared = mk()
+        sub = hg.Select(qsel, shared)
+        sub.fill(datum(1.0))
+        h = hg.Branch(sub, shared)
+        for attempt in (1, 2):
+            try:
+                h.fill(datum(2.0))
+            except ContainerException:
+                continue
+            return f"pre-filled subtree + inner node (attempt {attempt}): accepted and double-filled"
+        # (4) no sharing: never rejected, first and later fills; shared unfilled template is legal
+        a, b = mk(), mk()
+        for name, h in containers(a, b):
+            try:
+                h.fill(datum(0.5))
+                h.fill(datum(1.5))
+            except ContainerException as e:
+                return f"{name}: a tree without shared nodes was rejected: {e}"
+    tmpl = hg.Sum(qx)
+    h = hg.Label(a=hg.SparselyBin(1.0, qx, tmpl), b=hg.SparselyBin(1.0, qx, tmpl))
+    try:
+        h.fill(datum(0.5))
+        h.fill(datum(1.5))
+    except ContainerException as e:
+        return f"two sparse containers sharing an unfilled template were rejected: {e}"
+    h = hg.Bin(3, 0, 3, qx, hg.SparselyBin(1.0, qy, hg.Sum(qy)))
+    try:
+        h.fill(datum(0.5))
+        h.fill(datum(1.5))
+    except ContainerException as e:
+        return f"Bin of SparselyBin (bins share one template) was rejected: {e}"
+    # (5) vectorised fill on a shared node
+    shared = hg.Sum(qxa)
+    h = hg.Label(a=shared, b=shared)
+    try:
+        h.fill.numpy({"x": arr})
+    except ContainerException:
+        pass
+    else:
+        return "fill.numpy on a tree with a shared node did not raise"
+    # (6) every fillable position of every class is visited: share bins[0]/nanflow/flows explicitly
+    def probe(h, x, y, what):
+        try:
+            h.fill(datum(0.5))
+        except ContainerException:
+            return None
+        return f"{what}: one object at two positions of {type(h).__name__} accepted"
+
+    for K in ("Stack", "IrregularlyBin", "CentrallyBin"):
+        h = make(K)
+        objs = [v for _, v in h.bins] + [h.nanflow]
+        for i in range(len(objs)):
+            for j in range(i + 1, len(objs)):
+                h2 = make(K)
+                bins = list(h2.bins)
+                allobjs = [v for _, v in bins] + [h2.nanflow]
+                target = allobjs[i]
+                if j < len(bins):
+                    bins[j] = (bins[j][0], target)
+                    h2.bins = tuple(bins) if isinstance(h2.bins, tuple) else bins
+                else:
+                    h2.nanflow = target
+                m = probe(h2, i, j, f"{K} positions {i},{j}")
+                if m:
+                    return m
+    h = make("Bin")
+    for i, j in ((0, 1), (0, 2)):
+        h2 = make("Bin")
+        h2.values[j] = h2.values[i]
+        m = probe(h2, i, j, "Bin values")
+        if m:
+            return m
+    for fl in ("underflow", "overflow", "nanflow"):
+        h2 = make("Bin")
+        setattr(h2, fl, h2.values[0])
+        m = probe(h2, 0, fl, "Bin value/" + fl)
+        if m:
+            return m
+    h2 = make("Fraction")
+    h2.numerator = h2.denominator
+    m = probe(h2, 0, 1, "Fraction")
+    if m:
+        return m
+    return None
+
+
+# --------------------------------------------------------------------------- C11: pickling
+
+
+def chk_pickle():
+    import pickle
+
+    import numpy as np
+    from histogrammar.util import cached, named
+
+    def q_def(d):
+        return d["x"]
+
+    quantities = {
+        "lambda": lambda d: d["x"],
+        "lambda-default": (lambda d, k="x": d[k]),
+        "def": q_def,
+        "string": "x",
+        "named": named("nx", lambda d: d["x"]),
+        "cached": cached(lambda d: d["x"]),
+        "named-cached-string": cached(named("nx2", "x")),
+    }
+    rows = [{"x": 0.5, "y": 1.0}, {"x": 2.5, "y": -1.0}, {"x": NAN, "y": 0.0}, {"x": INF, "y": 2.0}]
+    more = [{"x": 1.5, "y": 1.0}, {"x": -3.0, "y": 0.5}]
+    cols = {"x": np.array([0.25, 1.75, NAN, 2.0]), "y": np.array([1.0, 2.0, 3.0, 4.0])}
+
+    def trees(q):
+        yield "Sum", lambda: hg.Sum(q)
+        yield "Average", lambda: hg.Average(q)
+        yield "Minimize", lambda: hg.Minimize(q)
+        yield "Bin", lambda: hg.Bin(3, 0.0, 3.0, q, hg.Sum(q))
+        yield "SparselyBin", lambda: hg.SparselyBin(1.0, q, hg.Count())
+        yield "CentrallyBin", lambda: hg.CentrallyBin([0.0, 1.0, 2.5], q)
+        yield "IrregularlyBin", lambda: hg.IrregularlyBin([0.0, 1.0], q, hg.Deviate(q))
+        yield "Stack", lambda: hg.Stack([0.0, 1.0], q)
+        yield "Select", lambda: hg.Select(q, hg.Bin(2, 0, 2, q))
+        yield "Fraction", lambda: hg.Fraction(q, hg.Count())
+        yield "Label", lambda: hg.Label(a=hg.Sum(q), b=hg.Sum(q))
+        yield "Branch", lambda: hg.Branch(hg.Count(), hg.Bin(2, 0, 2, q))
+
+    for qn, q in quantities.items():
+        for tn, mk in trees(q):
+            for state in ("empty", "filled", "merged"):
+                h = mk()
+                if state != "empty":
+                    fill_all(h, rows)
+                if state == "merged":
+                    h = h + fill_all(mk(), more)
+                before = js(h)
+                try:
+                    blob = pickle.dumps(h)
+                    c = pickle.loads(blob)
+                except Exception as e:
+                    return f"{tn}[{qn}] {state}: pickle round trip raised {e!r}"
+                if js(h) != before:
+                    return f"{tn}[{qn}] {state}: pickling changed the original"
+                if js(c) != before:
+                    return f"{tn}[{qn}] {state}: clone content differs"
+                if not (c == h and h == c):
+                    return f"{tn}[{qn}] {state}: clone != original"
+                # the original stays live after dumps (row-wise and vectorised), and so does the clone
+                for who, obj in (("original", h), ("clone", c)):
+                    try:
+                        fill_all(obj, more)
+                        if qn not in ("cached", "named-cached-string") or True:
+                            obj.fill.numpy(cols)
+                    except Exception as e:
+                        return f"{tn}[{qn}] {state}: filling the {who} after the round trip raised {e!r}"
+                if not approx_eq(h.toJson(), c.toJson()):
+                    return f"{tn}[{qn}] {state}: clone and original diverge under the same further fills: {js(h)[:200]} vs {js(c)[:200]}"
+    # reloaded-from-JSON containers pickle too
+    h = fill_all(hg.Bin(3, 0.0, 3.0, lambda d: d["x"], hg.Sum(lambda d: d["y"])), rows)
+    r = hg.Factory.fromJson(h.toJson())
+    c = pickle.loads(pickle.dumps(r))
+    if js(c) != js(r) or not (c == r):
+        return "reloaded Bin: pickle clone differs"
     return None
